@@ -1,4 +1,5 @@
 import Secp.Proofs.SlicesFrame
+import Secp.Proofs.SlicesFun
 import Secp.Gen.Facts
 /-!
 # C15 — API calls never write to caller-owned memory and return fresh buffers
@@ -35,6 +36,12 @@ theorem vetDST_frame (H : Spec.Bytes → Spec.Bytes) (h : Heap) (dst : Slice) :
     (∀ i, i < h.length → (vetDST H h dst).1.getD i [] = h.getD i []) ∧ h.length ≤ (vetDST H h dst).2.buf :=
   Hand.Slices.vetDST_frame H h dst
 
+/-- the heap model and the pure model of `vetDSTXMD` (the one C08/C09 are proved about) are the same function of the
+argument's bytes, for every heap and every well-formed layout: the frame theorem is about the function the hashing
+theorems use, not about a look-alike -/
+theorem vetDST_functional (H : Spec.Bytes → Spec.Bytes) (h : Heap) (dst : Slice) (w : WF h dst) :
+    read (vetDST H h dst).1 (vetDST H h dst).2 = Hand.Group.vetDSTXMD H (read h dst) := vetDST_fun H h dst w
+
 /-- scalar and element arguments keep their value: the cell analysis shows the argument cells are never rebound -/
 theorem pointer_arguments_untouched :
     ("Curve.addProjectiveComplete_eu_v", ["v"]) ∈ Facts.untouched ∧ ("Curve.isEqual", ["e", "u"]) ∈ Facts.untouched ∧
@@ -42,5 +49,6 @@ theorem pointer_arguments_untouched :
 
 -- non-vacuity: a DST of length 2 inside a 6-byte array with spare capacity 3
 example : (vetDST (fun _ => List.replicate 32 0) [[9, 1, 2, 7, 7, 7]] ⟨0, 1, 2, 5⟩).1.getD 0 [] = [9, 1, 2, 7, 7, 7] := by decide
+example : WF [[9, 1, 2, 7, 7, 7]] ⟨0, 1, 2, 5⟩ := by unfold WF; decide
 
 end C15
